@@ -169,3 +169,86 @@ Theorem own_properties_lost_refuted :
   let own := {| l_type := Some "object"; l_format := ""; l_required := []; l_props := [("own", "s")]; l_addl := AAbsent; l_nullable := false |} in
   option_map keys (flat (Node own [Node base []])) = Some ["id"].
 Proof. vm_compute. reflexivity. Qed.
+
+(** * The legacy merge and additional properties *)
+Lemma v1_fold_rejected ms : fold_left v1_step ms None = None.
+Proof. induction ms as [|m ms IH]; simpl; auto. Qed.
+
+Lemma v1_fold_on : forall ms t,
+  fold_left v1_step ms (Some (Some t)) =
+  if forallb (fun m => match m with None => true | Some t' => String.eqb t' t end) ms then Some (Some t) else None.
+Proof.
+  induction ms as [|m ms IH]; intro t; [reflexivity|].
+  cbn [fold_left forallb]. destruct m as [t'|]; cbn [v1_step].
+  - destruct (String.eqb t' t); cbn [andb]; [apply IH|apply v1_fold_rejected].
+  - cbn [andb]. apply IH.
+Qed.
+
+Lemma v1_off_iff ms : v1_addl ms = Some None <-> (forall m, In m ms -> m = None).
+Proof.
+  unfold v1_addl. induction ms as [|m ms IH]; cbn [fold_left].
+  - split; [intros _ m []|reflexivity].
+  - destruct m as [t|]; cbn [v1_step].
+    + rewrite v1_fold_on. split.
+      * destruct (forallb _ ms); discriminate.
+      * intro H. specialize (H (Some t) (or_introl eq_refl)). discriminate.
+    + rewrite IH. split; intros H m Hm.
+      * destruct Hm as [<-|Hm]; auto.
+      * apply H. right. exact Hm.
+Qed.
+
+Lemma v1_on_iff ms t :
+  v1_addl ms = Some (Some t) <-> (In (Some t) ms /\ forall t', In (Some t') ms -> t' = t).
+Proof.
+  unfold v1_addl. induction ms as [|m ms IH]; cbn [fold_left].
+  - split; [discriminate|intros [[] _]].
+  - destruct m as [t0|]; cbn [v1_step].
+    + rewrite v1_fold_on. destruct (forallb _ ms) eqn:E.
+      * rewrite forallb_forall in E. split.
+        -- intro H. inversion H. subst t0. split; [left; reflexivity|].
+           intros t' [H'|H']; [inversion H'; reflexivity|]. specialize (E _ H'). apply String.eqb_eq in E. exact E.
+        -- intros [_ Hall]. f_equal. f_equal. apply Hall. left. reflexivity.
+      * split; [discriminate|]. intros [_ Hall]. exfalso.
+        assert (Hc : forallb (fun m => match m with None => true | Some t' => String.eqb t' t0 end) ms = true).
+        { apply forallb_forall. intros [t'|] Hm; [|reflexivity]. apply String.eqb_eq.
+          rewrite (Hall t' (or_intror Hm)). symmetry. apply Hall. left. reflexivity. }
+        rewrite Hc in E. discriminate.
+    + rewrite IH. split.
+      * intros [Hin Hall]. split; [right; exact Hin|]. intros t' [H'|H']; [discriminate|auto].
+      * intros [[H'|Hin] Hall]; [discriminate|]. split; [exact Hin|]. intros t' H'. apply Hall. right. exact H'.
+Qed.
+
+(** the aggregate has additional properties exactly when some member has them, with that member's type *)
+Theorem v1_addl_kept ms t : In (Some t) ms -> v1_addl ms = Some (Some t) \/ v1_addl ms = None.
+Proof.
+  intro Hin. destruct (v1_addl ms) as [[t'|]|] eqn:E; [left|exfalso|right; reflexivity].
+  - apply v1_on_iff in E. destruct E as [_ Hall]. rewrite (Hall t Hin). reflexivity.
+  - apply (proj1 (v1_off_iff ms)) with (m := Some t) in E; [discriminate|exact Hin].
+Qed.
+
+(** the order of the members is irrelevant *)
+Theorem v1_addl_perm ms ms' : Permutation ms ms' -> v1_addl ms = v1_addl ms'.
+Proof.
+  intro P.
+  assert (Hin : forall m, In m ms <-> In m ms').
+  { intro m. split; apply Permutation_in; [exact P|apply Permutation_sym; exact P]. }
+  destruct (v1_addl ms) as [[t|]|] eqn:E.
+  - symmetry. apply v1_on_iff. apply v1_on_iff in E. destruct E as [H1 H2]. split; [apply Hin; exact H1|].
+    intros t' H'. apply H2. apply Hin. exact H'.
+  - symmetry. apply v1_off_iff. intros m Hm. apply (proj1 (v1_off_iff ms) E). apply Hin. exact Hm.
+  - destruct (v1_addl ms') as [[t|]|] eqn:E'; [exfalso|exfalso|reflexivity].
+    + apply v1_on_iff in E'. destruct E' as [H1 H2].
+      assert (X : v1_addl ms = Some (Some t)).
+      { apply v1_on_iff. split; [apply Hin; exact H1|]. intros t' H'. apply H2. apply Hin. exact H'. }
+      rewrite X in E. discriminate.
+    + assert (X : v1_addl ms = Some None).
+      { apply v1_off_iff. intros m Hm. apply (proj1 (v1_off_iff ms') E'). apply Hin. exact Hm. }
+      rewrite X in E. discriminate.
+Qed.
+
+(** the flattened test forgets the additional properties of an earlier member and depends on the order *)
+Theorem v1_flat_refuted :
+  v1_addl [Some "int"; None] = Some (Some "int") /\ v1_addl_flat [Some "int"; None] = Some None
+  /\ v1_addl_flat [None; Some "int"] = Some (Some "int")
+  /\ v1_addl [Some "int"; None; Some "string"] = None /\ v1_addl_flat [Some "int"; None; Some "string"] = Some (Some "string").
+Proof. vm_compute. repeat split; reflexivity. Qed.
